@@ -175,6 +175,7 @@ def _group_rss_kb(pgid):
 def _run_cmd(cmd, cwd, log_path, timeout_s, append=False):
     """Returns (text, reason) where reason is None | 'timeout' | 'memory limit'."""
     env = dict(os.environ, CARGO_NET_OFFLINE="true")
+    os.makedirs(os.path.dirname(log_path), exist_ok=True)
     with open(log_path, "ab" if append else "wb") as lf:
         lf.write(("$ " + " ".join(cmd) + "\n").encode())
         lf.flush()
